@@ -3,6 +3,7 @@ package main
 import (
 	"fmt"
 	"os"
+	"runtime/debug"
 	"strings"
 
 	"github.com/usnistgov/dastard/ringbuffer"
@@ -13,6 +14,9 @@ func init() { gens["C18"] = genC18 }
 // genC18 drives a real RingBuffer (POSIX shared memory; one writer handle, one reader handle)
 // through generated op sequences.  Ops: W data | R n | M k | A | D k.
 func genC18(r *Rng, tier string, o *Out) {
+	// a fault on the memory mapping (e.g. a copy running past the end of the mapped ring) becomes a panic of
+	// the operation instead of killing the process: it is then an observed output like any other panic
+	defer debug.SetPanicOnFault(debug.SetPanicOnFault(true))
 	n := 800
 	if tier == "thorough" {
 		n = 12000
